@@ -26,6 +26,13 @@ SHARDS = {"quick": 1, "thorough": 1}  # one shard; it runs 16 session subprocess
 BUDGET = {"quick": 100.0, "thorough": 900.0}  # ceilings (heavily loaded machine); typical use is 15-25 s / 2-4 min
 WORKERS = 16
 REQUIRE = {
+    "ign_handler_sessions": 20,
+    "ign_handler_sessions:ign": 8,
+    "ign_handler_sessions:ign:SIGTSTP": 3,
+    "ORD_same_batch_after_swap_checked": 50,
+    "ORD_same_batch_after_swap_checked:to-N": 10,
+    "ORD_same_batch_after_swap_checked:to-T": 10,
+    "ORD_keys_past_unselectable_top": 20,
     "inject_reached:base": 40,
     "EXIT_base_checked": 40,
     "inject_reached:sysexit": 8,
@@ -72,9 +79,9 @@ REQUIRE = {
 RULE = (
     "a case = one MainLoop.run() session in a fresh subprocess on a pty: configuration (event loop in select/asyncio/"
     "tornado/twisted/trio/zmq, screen with or without hook_event_loop, pop_ups on/off, mouse tracking/bracketed paste/"
-    "focus reporting on or off, default or application-installed initial signal handlers) x scripted session (keys, SGR "
+    "focus reporting on or off, initial signal dispositions default | application functions | SIG_IGN (all four or one signal)) x scripted session (keys, SGR "
     "mouse presses, focus/paste sequences, SIGWINCH with a real size change, 2 alarms, watch_pipe write, watch_file "
-    "write, pop-up open/close, keys split over two writes (ESC|[A, a split UTF-8 char, a split SGR mouse report, a split f5) "
+    "write, pop-up open/close, several keys in one write whose first key makes a callback replace loop.widget by a page of other selectability / other handled keys, keys split over two writes (ESC|[A, a split UTF-8 char, a split SGR mouse report, a split f5) "
     "with the second write made after the loop read the first and the loop then held waiting > complete_wait; fixed orders + "
     "seeded shuffles in thorough) x injection (none, or ExitMainLoop / Boom(Exception) / Halt(BaseException) / SystemExit "
     "at the k-th invocation of one of the 8 callback sites, enumerated from the fault-free run of the same "
@@ -97,7 +104,11 @@ ASSUMES = [
 LOOPS = ("select", "asyncio", "tornado", "twisted", "trio", "zmq")
 SITES = pty_term.SITES
 POP = {"left": 2, "top": 1, "w": 12, "h": 3}
-HANDLED_KEYS = ("a", "p", "c", "x", "y", "begin paste", "end paste")
+HANDLED_KEYS = ("a", "p", "c", "x", "y", "w", "begin paste", "end paste")
+# pages that the scripted callbacks install as loop.widget: selectability and handled keys differ
+PAGE_SELECTABLE = {"M": True, "N": False, "T": True}
+PAGE_HANDLED = {"M": HANDLED_KEYS, "P": HANDLED_KEYS, "N": (), "T": ("b", "t", "w")}
+SWAP_KEYS = {"n": "N", "s": "T", "m": "M"}  # unhandled_input(key) does loop.widget = page; key 'w' handled by a widget -> page N
 STATEFUL = ("keypress", "mouse", "unhandled", "alarm", "pipe", "file")
 
 # token -> (bytes written to the master, decoded input events expected from them)
@@ -114,7 +125,15 @@ TOK = {
     "focus": ("\x1b[I", ["focus in"]),
     "paste": ("\x1b[200~xy\x1b[201~", ["begin paste", "x", "y", "end paste"]),
     "Q": ("Q", ["Q"]),
+    # several keys in ONE write; the first one swaps loop.widget, the rest must follow the new topmost widget
+    "nab": ("nab", ["n", "a", "b"]),
+    "sbt": ("sbt", ["s", "b", "t"]),
+    "ta": ("ta", ["t", "a"]),
+    "wab": ("wab", ["w", "a", "b"]),
+    "mab": ("mab", ["m", "a", "b"]),
+    "sab": ("sab", ["s", "a", "b"]),
 }
+SCRIPT_W = ["a", "nab", "m1", "sbt", "@alarm0", "ta", "wab", "@winch", "@pipe", "mab", "sab", "m3", "@alarm1", "Q"]
 # one key whose bytes reach the terminal in two writes, the second after the loop has read the first: (frag1, frag2, keys)
 SPLIT = {
     "s_up": ("\x1b", "[A", ["up"]),
@@ -290,6 +309,8 @@ def judge(spec, res, ctx, base_rst=None):  # noqa: C901, PLR0912, PLR0915
     exp_keys = expected_keys(spec)
     got_keys = []
     popup_open = False
+    top = "M"  # which page is loop.widget right now (model of the scripted swaps)
+    swapped_in_batch = False  # a swap happened while later keys of the same batch were still undelivered
     pending = []  # input events (already filtered) still to be delivered from the last filter call
     events = [e for e in log if e["site"] in ("filter", "keypress", "mouse", "unhandled", "ret", "inject", "alarm", "pipe", "file")]
     ord_broken = False
@@ -309,6 +330,7 @@ def judge(spec, res, ctx, base_rst=None):  # noqa: C901, PLR0912, PLR0915
             got_keys.extend(ks)
             pending = [k for k in ks if k != "z"]
             stage = None
+            swapped_in_batch = False
             continue
         if s in ("alarm", "pipe", "file"):
             if pending or stage == "need-unhandled":
@@ -332,9 +354,13 @@ def judge(spec, res, ctx, base_rst=None):  # noqa: C901, PLR0912, PLR0915
                 add("ORD", "unhandled-input-skipped", f"{cur!r} (outside the open pop-up) never reached unhandled_input")
                 ord_broken = True
                 break
+            if isinstance(cur, str) and not spec["pop_ups"] and not PAGE_SELECTABLE[top]:
+                add("ORD", "key-offered-to-unselectable-topmost-widget", f"{cur!r}: the topmost widget is now page {top} (not selectable) but widget {e['w']} {s} was called with {e.get('key', e.get('ev'))!r}; it must go to unhandled_input")
+                ord_broken = True
+                break
             want_site = "keypress" if isinstance(cur, str) else "mouse"
             got = e.get("key") if s == "keypress" else e.get("ev")
-            recv = "M"
+            recv = top
             want = cur
             if spec["pop_ups"] and popup_open:
                 recv = "P"
@@ -345,15 +371,21 @@ def judge(spec, res, ctx, base_rst=None):  # noqa: C901, PLR0912, PLR0915
                 ord_broken = True
                 break
             if e["w"] != recv:
-                add("ORD", f"wrong-receiver|{pop}", f"{cur!r} went to spy {e['w']} expected {recv} (popup_open={popup_open})")
+                add("ORD", f"wrong-receiver|{pop}", f"{cur!r} went to spy {e['w']} expected {recv} (popup_open={popup_open}, topmost page={top})")
                 ord_broken = True
                 break
             if e["w"] == "P":
                 ctx.count("popup_routed_events")
             ctx.count("ORD_input_events_checked")
+            if swapped_in_batch:
+                ctx.count("ORD_same_batch_after_swap_checked")
+                ctx.count(f"ORD_same_batch_after_swap_checked:to-{top}")
             # model of the spy's documented behaviour
             if s == "keypress":
-                handled = cur in HANDLED_KEYS
+                handled = cur in PAGE_HANDLED[e["w"]]
+                if handled and cur == "w":
+                    top = "N"
+                    swapped_in_batch = bool(pending)
                 if handled and cur == "p" and e["w"] == "M":
                     popup_open = True
                 if handled and cur == "c" and e["w"] == "P":
@@ -369,6 +401,15 @@ def judge(spec, res, ctx, base_rst=None):  # noqa: C901, PLR0912, PLR0915
                 stage = "need-unhandled"
                 ctx.count("ORD_input_events_checked")
                 ctx.count("popup_outside_mouse_events")
+            elif stage != "need-unhandled" and pending and isinstance(pending[0], str) and not spec["pop_ups"] and not PAGE_SELECTABLE[top]:
+                # the topmost widget is not selectable: a key goes straight to unhandled_input
+                cur = cur_unh = pending.pop(0)
+                stage = "need-unhandled"
+                ctx.count("ORD_input_events_checked")
+                ctx.count("ORD_keys_past_unselectable_top")
+                if swapped_in_batch:
+                    ctx.count("ORD_same_batch_after_swap_checked")
+                    ctx.count(f"ORD_same_batch_after_swap_checked:to-{top}")
             if stage != "need-unhandled":
                 add("ORD", "unhandled-called-for-handled-input", f"unhandled_input({e['key']!r}) although the widget handled it / nothing pending")
                 ord_broken = True
@@ -379,6 +420,9 @@ def judge(spec, res, ctx, base_rst=None):  # noqa: C901, PLR0912, PLR0915
                 break
             ctx.count("ORD_unhandled_checked")
             stage = None
+            if isinstance(cur_unh, str) and cur_unh in SWAP_KEYS:
+                top = SWAP_KEYS[cur_unh]
+                swapped_in_batch = bool(pending)
             continue
     complete = not reached
     split_timed_out, _ = split_facts(spec, log, inj_pos if reached else len(log), ctx)
@@ -414,7 +458,7 @@ def judge(spec, res, ctx, base_rst=None):  # noqa: C901, PLR0912, PLR0915
             sz = spec["script"][e["n"]][1]
             vt.resize(sz[0], sz[1])
         elif e["site"] == "alarm":
-            m = re.search(r"MS=(\d+)\.", vt.row_text(0)) if vt.alt_screen else None
+            m = re.search(r"[MNT]S=(\d+)\.", vt.row_text(0)) if vt.alt_screen else None
             vt_state_at[idx] = int(m.group(1)) if m else None
     rets = {}  # index of stateful event -> state after it
     for idx in range(limit):
@@ -433,7 +477,7 @@ def judge(spec, res, ctx, base_rst=None):  # noqa: C901, PLR0912, PLR0915
         for ie, s_after in rets.items():
             if ie < ia and a["due"] - log[ie]["t"] >= 0.05:
                 ctx.count("RDW_log_pairs_checked")
-                ok = any(log[j]["site"] == "render" and log[j]["w"] == "M" and log[j]["state"] >= s_after for j in range(ie + 1, ia))
+                ok = any(log[j]["site"] == "render" and log[j]["w"] in ("M", "N", "T") and log[j]["state"] >= s_after for j in range(ie + 1, ia))
                 if not ok:
                     add("RDW", f"no-redraw-between-{log[ie]['site']}-and-later-alarm", f"state {s_after} set by {log[ie]['site']} k={log[ie]['k']} was not rendered before alarm n={a['n']} due {a['due'] - log[ie]['t']:.3f}s later")
                 if s_after > need:
@@ -569,12 +613,22 @@ def plan_configs(ctx):
         plans.append((base_cfg(mouse=False, paste=False, focus=False), SCRIPT_B, "few"))
         for lp in LOOPS:
             plans.append((base_cfg(loop=lp), SCRIPT_P, "few"))
+        # pages swapped under a batch of keys x applications that ignore signals (all four / one at a time)
+        ign = {"select": "ign", "asyncio": "ign:SIGTSTP", "tornado": "ign:SIGWINCH", "twisted": "ign", "trio": "ign:SIGCONT", "zmq": "ign:SIGINT"}
+        for lp in LOOPS:
+            plans.append((base_cfg(loop=lp, handlers=ign[lp]), SCRIPT_W, "few"))
+        plans.append((base_cfg(hook=False, handlers="ign"), SCRIPT_W, "few"))
+        plans.append((base_cfg(), SCRIPT_W, "first"))
         return plans
     for lp in LOOPS:
         plans.append((base_cfg(loop=lp), SCRIPT_A, "full"))
         plans.append((base_cfg(loop=lp), SCRIPT_S, "full"))
         plans.append((base_cfg(loop=lp), SCRIPT_P, "full"))
         plans.append((base_cfg(loop=lp, pop_ups=True, handlers="custom"), SCRIPT_P, "ends"))
+        plans.append((base_cfg(loop=lp), SCRIPT_W, "full"))
+        plans.append((base_cfg(loop=lp, handlers="ign"), SCRIPT_W, "ends"))
+        for one in ("SIGWINCH", "SIGTSTP", "SIGCONT", "SIGINT"):
+            plans.append((base_cfg(loop=lp, handlers=f"ign:{one}"), SCRIPT_B, "first"))
         plans.append((base_cfg(loop=lp, pop_ups=True), SCRIPT_A, "full"))
         plans.append((base_cfg(loop=lp, pop_ups=True), SCRIPT_B, "full"))
         plans.append((base_cfg(loop=lp, handlers="custom"), SCRIPT_B, "full"))
@@ -585,6 +639,9 @@ def plan_configs(ctx):
     plans.append((base_cfg(hook=False), SCRIPT_B, "full"))
     plans.append((base_cfg(hook=False, pop_ups=True), SCRIPT_A, "full"))
     plans.append((base_cfg(hook=False, handlers="custom", paste=False), SCRIPT_B, "ends"))
+    plans.append((base_cfg(hook=False), SCRIPT_W, "full"))
+    plans.append((base_cfg(hook=False, handlers="ign"), SCRIPT_W, "ends"))
+    plans.append((base_cfg(hook=False, handlers="ign:SIGTSTP"), SCRIPT_B, "first"))
     # seeded shuffles of the long script
     for n in range(12):
         r = ctx.subrng("shuffle", n)
@@ -658,6 +715,9 @@ def evaluate(ctx, spec, res, base_rst=None):
         ctx.count("nohook_sessions")
     if spec["handlers"] == "custom":
         ctx.count("custom_handler_sessions")
+    if spec["handlers"].startswith("ign"):
+        ctx.count("ign_handler_sessions")
+        ctx.count(f"ign_handler_sessions:{spec['handlers']}")
     if spec["pop_ups"]:
         ctx.count("popup_sessions")
     if not spec.get("inject"):
